@@ -642,7 +642,13 @@ impl CpcSketch {
             window_offset: determine_correct_offset(lg_k, num_coupons),
             sliding_window: uncompressed.window,
             merge_flag: !has_hip,
-            kxp,
+            // an image without a HIP section (empty or merged sketch) implies the initial
+            // register value; 0.0 would make the first update add k/0 to the accumulator
+            kxp: if has_hip && num_coupons > 0 {
+                kxp
+            } else {
+                (1u64 << lg_k) as f64
+            },
             hip_est_accum,
         })
     }
